@@ -101,3 +101,49 @@ Definition list_case_trace (o : owner) (t : bool) (g : garg) (xs : list nat) (op
 Definition check_list_case (c : owner * bool * garg * list nat * list op * Z) : bool :=
   let '(o, t, g, xs, ops, expected) := c in
   Z.eqb (hash_zlll 0 (list_case_trace o t g xs ops)) expected.
+
+(* ---- part B state machines -------------------------------------------------------------------- *)
+Definition enc_s (a : sarg) : Z := match a with SNone => 0 | SOk n => 1 + Z.of_nat n | SBad => -1 | SEmpty => -2 end.
+Fixpoint atrace (s : adm) (ops : list aop) : list (list Z) :=
+  match ops with
+  | [] => []
+  | p :: r => let '(s', e) := astep s p in [enc_err e; enc_s (aver s'); enc_s (arev s')] :: atrace s' r
+  end.
+Definition adm_case_trace (v r : sarg) (ops : list aop) : list (list Z) :=
+  match actor v r with
+  | (Some s, _) => [0; enc_s (aver s); enc_s (arev s)] :: atrace s ops
+  | (None, e) => [[enc_err e]]
+  end.
+Definition check_adm_case (c : sarg * sarg * list aop * Z) : bool :=
+  let '(v, r, ops, expected) := c in Z.eqb (hash_zll 0 (adm_case_trace v r ops)) expected.
+
+Definition enc_u (u : upd) : Z := match u with UNone => 0 | UUtc => 1 | UOther => 2 end.
+Fixpoint btrace (s : bee) (ops : list bop) : list (list Z) :=
+  match ops with
+  | [] => []
+  | p :: r => let '(s', e) := bstep s p in [enc_err e; zb (bin s'); zb (bmax s'); enc_u (blast s')] :: btrace s' r
+  end.
+Definition bee_case_trace (d : bool) (u : upd) (m : bool) (ops : list bop) : list (list Z) :=
+  match bctor d u m with
+  | (Some s, _) => [0; zb (bin s); zb (bmax s); enc_u (blast s)] :: btrace s ops
+  | (None, e) => [[enc_err e]]
+  end.
+Definition check_bee_case (c : bool * upd * bool * list bop * Z) : bool :=
+  let '(d, u, m, ops, expected) := c in Z.eqb (hash_zll 0 (bee_case_trace d u m ops)) expected.
+
+Definition check_cat_case (c : ckind * carg * Z) : bool :=
+  let '(k, a, expected) := c in Z.eqb (enc_err (set_category k a)) expected.
+
+Definition enc_lss (l : lss) : list Z := flat_map (fun e => [Z.of_nat (fst e); zb (snd e)]) l.
+Fixpoint ltrace_lss (c : bool) (l : lss) (ops : list lop) : list (list Z) :=
+  match ops with
+  | [] => []
+  | p :: r => let '(l', e) := lstep c l p in (enc_err e :: enc_lss l') :: ltrace_lss c l' r
+  end.
+Definition lss_case_trace (c : bool) (kvs : list (nat * bool)) (ops : list lop) : list (list Z) :=
+  match lctor c kvs with
+  | (Some l, _) => (0 :: enc_lss l) :: ltrace_lss c l ops
+  | (None, e) => [[enc_err e]]
+  end.
+Definition check_lss_case (x : bool * list (nat * bool) * list lop * Z) : bool :=
+  let '(c, kvs, ops, expected) := x in Z.eqb (hash_zll 0 (lss_case_trace c kvs ops)) expected.
